@@ -28,6 +28,8 @@ HANDMADE = [
     (":e\0=\0:f\0", [("e", ""), ("f", None)]),
     (":sep\0=:\0:d\0=7\0", [("sep", ":"), ("d", "7")]),
     (":u\0=\0:v\0=:x=y\0:w\0", [("u", ""), ("v", ":x=y"), ("w", None)]),
+    (":default\0:default\0=2\0", [("default", None), ("default", "2")]),          # a repeated key, the first without value
+    (":d\0=1\0:d\0:e\0", [("d", "1"), ("d", None), ("e", None)]),
 ]     # (the empty block is outside the property: "blocks of 1..8 entries"; the iterator yields one entry with an empty key there)
 
 
